@@ -3,3 +3,4 @@ import RainModel.Model.Blocks
 import RainModel.Model.ResourceManager
 import RainModel.Model.WebseedCap
 import RainModel.Model.TokenBucket
+import RainModel.Model.Semaphore
